@@ -59,7 +59,8 @@ func (x *run) checkC01(obs []seen) *Failure {
 
 // visibleInvs: invocations whose result reached somebody - an output was
 // returned by a successful resolution or received by a visible invocation;
-// initializer functions and singleton constructors are visible by definition.
+// initializer functions (of scopes that came into being) and singleton
+// constructors are visible by definition.
 func (x *run) visibleInvs() map[*kit.Inv]bool {
 	vis := map[*kit.Inv]bool{}
 	var work []*kit.Inv
@@ -79,7 +80,18 @@ func (x *run) visibleInvs() map[*kit.Inv]bool {
 		}
 	}
 	for _, inv := range x.W.AllInvs() {
-		if r := x.M.Regs[inv.Reg]; r != nil && (r.Form == kit.FormVoid || r.Life == kit.Singleton) {
+		r := x.M.Regs[inv.Reg]
+		if r == nil {
+			continue
+		}
+		if r.Form == kit.FormVoid && r.Life != kit.Singleton && inv.ScopeTag > 0 {
+			// the initializer of a scope whose creation went on to fail (it overlapped a Close and
+			// reported the disposed error) ran for a scope nobody ever got
+			if rec := x.R.ScopeRecOf(inv.ScopeTag); rec == nil || !rec.Created {
+				continue
+			}
+		}
+		if r.Form == kit.FormVoid || r.Life == kit.Singleton {
 			mark(inv)
 		}
 	}
